@@ -769,6 +769,11 @@ func writeEvidence(m *Merged, newViol, knownViol int, wall float64) {
 	data, _ := json.MarshalIndent(ev, "", " ")
 	os.MkdirAll(filepath.Join(Root, "evidence"), 0o755)
 	os.WriteFile(filepath.Join(Root, "evidence", m.Prop.ID+".json"), data, 0o644)
+	// a copy per tier, so that a quick run does not erase the record of the last thorough one (and vice versa)
+	if m.Tier == "quick" || m.Tier == "thorough" {
+		os.MkdirAll(filepath.Join(Root, "evidence", m.Tier), 0o755)
+		os.WriteFile(filepath.Join(Root, "evidence", m.Tier, m.Prop.ID+".json"), data, 0o644)
+	}
 }
 
 // Replay re-executes the batch that produced a violation up to the failing case.
